@@ -18,6 +18,9 @@ type Solver struct {
 
 var solvers = []Solver{
 	{"z3-5.1.0", []string{"z3-new"}},
+	// same solver with the legacy simplex arithmetic core: decides some goals mixing sequence terms and 64-bit
+	// div/mod arithmetic that the default core times out on
+	{"z3-5.1.0/arith2", []string{"z3-new", "smt.arith.solver=2"}},
 	{"z3-4.8.12", []string{"z3"}},
 	{"cvc5-1.0", []string{"cvc5", "--lang=smt2"}},
 }
